@@ -2,7 +2,7 @@
 (* Case generator for C19: planar networks on five lattice positions; every link is an L-shaped polyline (length =
    |dx| + |dy|) with an optional spike that adds 2, 6 or 40; speeds 1, 2, 4; both options; AddLink order varied. *)
 EXTENDS Route, Json
-CONSTANTS MG        \* thinning
+CONSTANTS MG, MC    \* thinning of the planar family and of the cycle family
 VARIABLE c
 Pos2 == << <<0, 0>>, <<30, 0>>, <<30, 40>>, <<0, 40>>, <<60, 20>> >>
 Pairs2 == {<<a, b>> : a \in 1..5, b \in 1..5} \cap {<<a, b>> : a \in 1..5, b \in {x \in 1..5 : x > 0}}
@@ -30,9 +30,23 @@ Queries2 == {<<1, 1>>, <<31, 2>>, <<29, 41>>, <<58, 19>>, <<2, 38>>}
 (* one flat comprehension (nested UNIONs of record sets are quadratic in TLC) *)
 Cases == {[kind |-> "route", pos |-> Pos2, links |-> LinksOf(ps, ChoiceF(ps, pt), asc), opt |-> o, from |-> q1, to |-> q2] :
              ps \in EdgeSets, pt \in Pats, asc \in BOOLEAN, o \in {"distance", "time"}, q1 \in Queries2, q2 \in Queries2}
+(* the cycle family: four nodes on a line, the 4-cycle 1-2, 2-3, 3-4, 1-4 (the last one is the detour, optionally longer),
+   EVERY assignment of speeds, EVERY order of the four AddLink calls, both directions: the configurations in which the
+   bookkeeping of the fastest/slowest speed and the admissibility of the travel-time heuristic matter *)
+PosC(k) == IF k = 1 THEN << <<0, 0>>, <<10, 0>>, <<110, 0>>, <<120, 0>> >> ELSE << <<0, 0>>, <<30, 0>>, <<70, 0>>, <<100, 0>> >>
+CycPairs == << <<1, 2>>, <<2, 3>>, <<3, 4>>, <<1, 4>> >>
+Perm4 == {q \in [1..4 -> 1..4] : \A a \in 1..4, b \in 1..4 : a # b => q[a] # q[b]}
+CycLinks(k, sp, ex, q) == [i \in 1..4 |-> LET p == CycPairs[q[i]] IN
+                             [u |-> p[1], v |-> p[2], len |-> (PosC(k)[p[2]][1] - PosC(k)[p[1]][1]) + (IF q[i] = 4 THEN ex ELSE 0),
+                              speed |-> sp[q[i]], extra |-> IF q[i] = 4 THEN ex ELSE 0]]
+CycleCases == {[kind |-> "route", pos |-> PosC(k), links |-> CycLinks(k, sp, ex, q), opt |-> o, from |-> fr, to |-> tt] :
+                  k \in {1, 2}, sp \in [1..4 -> {1, 2, 4}], ex \in {0, 2, 40}, q \in Perm4, o \in {"time", "distance"},
+                  fr \in {<<1, 1>>, <<119, 1>>}, tt \in {<<1, 1>>, <<119, 1>>}}
+CycleThin == {x \in CycleCases : x.from # x.to /\ (x.opt = "time" \/ x.links[1].speed = 4)
+                                 /\ (x.links[1].speed + 3 * x.links[2].speed + 5 * x.links[3].len + 7 * x.links[4].u + (IF x.from[1] = 1 THEN 0 ELSE 1)) % MC = 0}
 GenInit == /\ net = 0 /\ opt = 0 /\ s = 0 /\ t = 0 /\ open = {} /\ closed = {} /\ g = 0 /\ phase = "gen"
            /\ c \in {x \in Cases : x.from # x.to /\ NearestUnique(x.pos, x.links, x.from) /\ NearestUnique(x.pos, x.links, x.to)
-                                   /\ (x.from[1] * 3 + x.to[1] * 5 + x.from[2]) % 4 = 0}
+                                   /\ (x.from[1] * 3 + x.to[1] * 5 + x.from[2]) % 4 = 0} \cup CycleThin
            /\ PrintT(ToJson(c))
 GenSpec == GenInit /\ [][UNCHANGED <<vars, c>>]_<<vars, c>>
 =============================================================================
